@@ -237,6 +237,22 @@ fn gen_profile(profile: &str, seed: u64, n: usize, thorough: bool, out: &mut Out
                 out.script(&gen::gen_c12(&mut r));
             }
         }
+        "c18hash" => {
+            // DefaultHasher::new() + impl Hash for str, in-process, on random path names
+            use std::hash::{DefaultHasher, Hash, Hasher};
+            let alphabet: Vec<char> = "abcdefghijklmnopqrstuvwxyzABCXYZ0123456789_-./ é日本".chars().collect();
+            for i in 0..n {
+                let len = if i < 40 { i } else { r.range(0, 60) };
+                let p: String = (0..len).map(|_| *r.pick(&alphabet)).collect();
+                let mut h = DefaultHasher::new();
+                p.hash(&mut h);
+                writeln!(out.cases, "sip {}", enc::hx(&p)).unwrap();
+                writeln!(out.imp, "{}", h.finish()).unwrap();
+                writeln!(out.tags, "c18hash").unwrap();
+                writeln!(out.expect, "-").unwrap();
+                out.n += 1;
+            }
+        }
         "c13" => {
             for _ in 0..n {
                 out.script(&gen::gen_c13(&mut r));
